@@ -662,6 +662,28 @@ func checkReshapeErrors(p *Program, r *Report, at *arrayType, tname string) {
 	// ReshapeFast
 	okFast := true
 	sawErr, sawDelegate := false, false
+	// a ReshapeFast that builds the reshaped header itself under its contiguity guard instead of handing the work to
+	// Reshape is a form this rule does not judge (the header is judged by R03.4 / R01.4): only the guard is required
+	selfBuilt := false
+	for _, ret := range returnsOf(rf) {
+		if len(ret.Results) != 2 || !isNilErr(ret.Results[1]) {
+			continue
+		}
+		deleg := false
+		for _, o := range origins(ret.Results[0]) {
+			if ex, ok := o.(*ssa.Extract); ok {
+				if c, ok := ex.Tuple.(*ssa.Call); ok && c.Common().StaticCallee() == rs {
+					deleg = true
+				}
+			}
+		}
+		if !deleg && contiguousGuard(ret.Block(), rf.Params[0], true) {
+			selfBuilt = true
+		}
+	}
+	if selfBuilt {
+		r.Unsupported("R02.4", tname+":ReshapeFast: builds the reshaped view itself under Contiguous()==true instead of returning Reshape's result; its size test and header are not judged by this rule")
+	}
 	for _, ret := range returnsOf(rf) {
 		if len(ret.Results) != 2 {
 			continue
@@ -685,16 +707,21 @@ func checkReshapeErrors(p *Program, r *Report, at *arrayType, tname string) {
 		}
 		if !isNilErr(ret.Results[1]) {
 			sawErr = true
+			if selfBuilt && contiguousGuard(ret.Block(), rf.Params[0], true) {
+				continue // the self-built form's own size test
+			}
 			if !contiguousGuard(ret.Block(), rf.Params[0], false) {
 				okFast = false
 				r.Fail("R02.4", tname+":ReshapeFast:error-cond", p.Pos(ret.Pos()), "ReshapeFast returns its own error on a path not guarded by Contiguous()==false")
 			}
+		} else if selfBuilt && contiguousGuard(ret.Block(), rf.Params[0], true) {
+			okFast = false // not judged
 		} else {
 			okFast = false
 			r.Fail("R02.4", tname+":ReshapeFast:other-success", p.Pos(ret.Pos()), "ReshapeFast has a success return that is not Reshape's result")
 		}
 	}
-	if !sawErr || !sawDelegate {
+	if !sawErr || (!sawDelegate && !selfBuilt) {
 		okFast = false
 		r.Fail("R02.4", tname+":ReshapeFast:shape", p.Pos(rf.Pos()), fmt.Sprintf("ReshapeFast must have an error return under !Contiguous() and delegate to Reshape otherwise (error return: %v, delegation: %v)", sawErr, sawDelegate))
 	}
